@@ -14,11 +14,16 @@
     exactly these (`Props.C01.kept_group`);
   * opacities multiply along a chain of single-child groups (`nested_single`), fill-opacity and opacity of a shape
     multiply into one alpha (`normalizeOpacity` model: `leaf_alpha_mul`).
+  * the cascade on the model of the code: after `_apply_styles` every property has the value of its last style
+    declaration and a presentation attribute survives only where the style is silent (`style_declarations_win`); the
+    copy handler of `_inherit_attrib` lets an element's own value win and inherits otherwise (`own_value_wins`,
+    `inherited_when_absent`); `display:none` reaches every descendant (`display_none_inherits`).
   Tied to the code by the pipeline correspondence on the cascade grammar and judged on every run by compositing the
   source and the converted document with the independent renderer (harness/render.py).
 -/
 import PicoSVG.Spec.Composite
 import PicoSVG.Model.Passes
+import PicoSVG.Proofs.CascadeP
 import Mathlib.Tactic.Ring
 import Mathlib.Tactic.Linarith
 
@@ -139,5 +144,35 @@ theorem leaf_alpha_mul (r g b fo o : α) : paint (.group o [.leaf r g b fo]) = p
 /-- non-vacuity: the hypothesis of `flatten_sound` holds for a one-child half-transparent group and the conclusion is a
     non-trivial colour -/
 example : onto (clear : RGBA ℚ) [Layer.leaf 1 0 0 1, .group (1/2) [.leaf 0 0 1 1]] = ⟨1/2, 0, 1/2, 1⟩ := by decide +kernel
+
+/-! ### the cascade itself (on the model of `_apply_styles` and `_inherit_attrib`) -/
+
+/-- C05 (style declarations win over presentation attributes; among declarations the last one wins) -/
+theorem style_declarations_win (a a' : Attrs) (st : String) (assigned : List (String × String)) (rest : String)
+    (hst : Attrs.get a "style" = some st)
+    (hp : Style.parseDecls (fun _ => true) Cleanup.validAttrName st = .ok (assigned, rest))
+    (h : Cleanup.applyStylesAttrs a = .ok a') (k : String) :
+    Attrs.get a' k = match CascadeP.lastDecl k assigned with
+      | some v => some v
+      | none => Attrs.get (Attrs.del a "style") k :=
+  CascadeP.applyStyles_declarations_win a a' st assigned rest hst hp h k
+
+/-- C05 (inheritance): an element's own fill / fill-rule / stroke… wins over what its ancestors hand down … -/
+theorem own_value_wins (attrib child : Attrs) (name : String) (h : Attrs.has child name = true) :
+    Cascade.applyHandler "_inherit_copy" attrib child name = .ok child := CascadeP.own_value_wins attrib child name h
+
+/-- … and is inherited exactly when it has none -/
+theorem inherited_when_absent (attrib child : Attrs) (name v : String) (h : Attrs.has child name = false)
+    (hv : Attrs.get attrib name = some v) :
+    ∃ c, Cascade.applyHandler "_inherit_copy" attrib child name = .ok c ∧ Attrs.get c name = some v :=
+  CascadeP.inherited_when_absent attrib child name v h hv
+
+/-- `display:none` on an ancestor reaches every descendant -/
+theorem display_none_inherits (attrib child : Attrs) (name : String) (h : Attrs.get attrib name = some "none") :
+    Cascade.applyHandler "_inherit_nondefault_display" attrib child name = .ok (Attrs.set child name "none") :=
+  CascadeP.display_none_inherits attrib child name h
+
+/-- non-vacuity: fill="red" style="fill:blue; fill : lime" ends up lime -/
+example : CascadeP.lastDecl "fill" [("fill", "blue"), ("opacity", "0.5"), ("fill", "lime")] = some "lime" := by decide
 
 end PicoSVG.Props.C05
